@@ -208,6 +208,9 @@ def run(ctx, rep):
     s = run_rule(ctx, rep, "SUBSCRIPT", S.subscript_sinks, allow)
     check_controls(rep, "SUBSCRIPT", s, ["subscript_bad"], ["subscript_ok"])
     rep.floor("SUBSCRIPT obligations", len([o for o in s if not o.control]), 12)
+    wl = run_rule(ctx, rep, "WRITELEN", S.writelen_sinks, allow)
+    check_controls(rep, "WRITELEN", wl, ["writelen_bad"], ["writelen_ok"])
+    rep.floor("WRITELEN obligations", len([o for o in wl if not o.control]), 4)
     lb = run_rule(ctx, rep, "LOOPBOUND", S.loopbound_sinks, allow)
     check_controls(rep, "LOOPBOUND", lb, ["loop_bad", "loopiter_bad"], ["loop_ok"])
     rep.floor("LOOPBOUND obligations", len([o for o in lb if not o.control]), 18)
